@@ -4,7 +4,7 @@ log=$1; shift
 : > $log
 for spec in "$@"; do
   d=${spec%%:*}; cs=${spec#*:}
-  ( r=$(python3 /verif/tools/try_seed.py $d $cs 2>&1 | grep -E "^(CONFIRMED|NOT CONFIRMED|check |PATCH DOES|suite|demo)" | tr '\n' '|'); echo "$d :: $r" >> $log ) &
+  ( r=$(python3 /verif/tools/try_seed.py $d $cs $SEED_ARGS 2>&1 | grep -E "^(CONFIRMED|NOT CONFIRMED|check |PATCH DOES|suite|demo)" | tr '\n' '|'); echo "$d :: $r" >> $log ) &
   while [ $(jobs -r | wc -l) -ge 4 ]; do sleep 1; done
 done
 wait
